@@ -72,10 +72,12 @@ type Ctx struct {
 	exitPCs     [][]string
 	fnSrc       *FuncSrc
 	tsubst      map[*types.TypeParam]types.Type
+	ghSorts     map[string]string // ghost variables with a raw SMT sort (e.g. the big-int heap)
+	usesBig     bool
 }
 
 func newCtx(w *World, specs *Specs, fnName string) *Ctx {
-	return &Ctx{w: w, specs: specs, sorts: newSorts(), fnName: fnName, counters: map[string]int{}, notes: map[string]bool{}, inlined: map[string]bool{}, dropped: map[string]bool{}, assumedContracts: map[string]bool{}, ufSig: map[string]string{}, globals: map[types.Object]string{}, strLits: map[string]string{}, rawSorts: map[types.Object]string{}}
+	return &Ctx{w: w, specs: specs, sorts: newSorts(), fnName: fnName, counters: map[string]int{}, notes: map[string]bool{}, inlined: map[string]bool{}, dropped: map[string]bool{}, assumedContracts: map[string]bool{}, ufSig: map[string]string{}, globals: map[types.Object]string{}, strLits: map[string]string{}, rawSorts: map[types.Object]string{}, ghSorts: map[string]string{}}
 }
 
 func (c *Ctx) fresh(prefix, sort string) string {
@@ -549,6 +551,10 @@ func (f *Frame) mergeStates(states []*State) *State {
 		t := live[len(live)-1].gh[k].T
 		for i := len(live) - 2; i >= 0; i-- {
 			t = ite(deltas[i], live[i].gh[k].T, t)
+		}
+		if gs, ok := f.c.ghSorts[k]; ok {
+			out.gh[k] = Val{T: f.c.define("gh_"+k, gs, t)}
+			continue
 		}
 		out.gh[k] = f.name("gh_"+k, Val{T: t, Ty: first.Ty, IsBool: first.IsBool})
 	}
